@@ -214,6 +214,16 @@ func c10Cuts(ctx *core.Ctx, k int, fault string, dotu bool, holdPoint string) co
 			ctx.Beat()
 		}
 		c10Session(&res, k, fault, dotu, cut, holdPoint, ref)
+		// a session whose calls never return costs seconds of watching: one such witness per case is enough
+		hang := false
+		for _, v := range res.Violations {
+			if strings.HasPrefix(v.Signature, "C10;hang;") {
+				hang = true
+			}
+		}
+		if hang {
+			break
+		}
 	}
 	return res
 }
@@ -289,6 +299,9 @@ func c10Session(res *core.Result, k int, fault string, dotu bool, cut int, holdP
 		// a call issued after the failure
 		s := &sess{p: p, c: c, dotu: dotu}
 		steps <- stepRes{"late", errOf(s.do(call{kind: "stat", fidn: 4242}))}
+		// … and two more: every later call returns an error, not only the first
+		steps <- stepRes{"late", errOf(s.do(call{kind: "read", fidn: 4243, offset: 1, count: 9}))}
+		steps <- stepRes{"late", errOf(s.do(call{kind: "stat", fidn: 4244}))}
 	}()
 	finished := func() bool {
 		select {
@@ -487,13 +500,13 @@ func c10Session(res *core.Result, k int, fault string, dotu bool, cut int, holdP
 		}
 		p.Srv.Close()
 		if clnt != nil {
-			clnt.Unmount()
+			unmountDetached(clnt)
 		}
 		return nil
 	}
 	close(steps)
 	if clnt != nil {
-		defer clnt.Unmount()
+		defer unmountDetached(clnt)
 	}
 	if cut < 0 {
 		for st := range steps {
@@ -1318,4 +1331,15 @@ func c10ManyLaterCalls(ctx *core.Ctx) core.Result {
 	}
 	res.Sample(map[string]interface{}{"scenario": "70 000 calls after the connection failed", "ways": "peer closes, Unmount"})
 	return res
+}
+
+// unmountDetached: the harness's own cleanup must not hang on a client that is stuck (the scenario has been judged by
+// then).
+func unmountDetached(c *go9p.Clnt) {
+	done := make(chan struct{})
+	go func() { c.Unmount(); close(done) }()
+	select {
+	case <-done:
+	case <-time.After(2 * time.Second):
+	}
 }
